@@ -122,6 +122,9 @@ type Net struct {
 	// SrvCloseStall: closing the server's side of a stream connection takes up to this much simulated
 	// time (a TLS close_notify that has to be written, a lingering close). Only with CloseYields.
 	SrvCloseStall time.Duration
+	// SrvSockoptFail: the TCP-only socket options (keep-alive, no-delay, linger, buffer sizes) fail on the
+	// server's side of every stream connection (a platform or a wrapped connection that refuses them).
+	SrvSockoptFail bool
 
 	K      *kernel.K
 	Stream StreamLink
@@ -634,8 +637,23 @@ func (c *StreamConn) CloseWrite() error {
 // interface where it says *net.TCPConn, so that a simulated connection can take
 // that branch of a changed tree).
 
+// ErrSockopt is what a connection that refuses a socket option says.
+var ErrSockopt = errors.New("simnet: setsockopt: operation not supported")
+
+//go:norace
+func (c *StreamConn) sockopt() error {
+	if c.n.SrvSockoptFail && c.Role == "srv" {
+		c.n.K.Bump("fault.socket_option_refused")
+		return ErrSockopt
+	}
+	return nil
+}
+
 //go:norace
 func (c *StreamConn) SetLinger(sec int) error {
+	if err := c.sockopt(); err != nil {
+		return err
+	}
 	c.n.K.Lock()
 	c.lingerZero = sec == 0
 	c.n.K.Unlock()
@@ -643,19 +661,19 @@ func (c *StreamConn) SetLinger(sec int) error {
 }
 
 //go:norace
-func (c *StreamConn) SetNoDelay(bool) error { return nil }
+func (c *StreamConn) SetNoDelay(bool) error { return c.sockopt() }
 
 //go:norace
-func (c *StreamConn) SetKeepAlive(bool) error { return nil }
+func (c *StreamConn) SetKeepAlive(bool) error { return c.sockopt() }
 
 //go:norace
-func (c *StreamConn) SetKeepAlivePeriod(time.Duration) error { return nil }
+func (c *StreamConn) SetKeepAlivePeriod(time.Duration) error { return c.sockopt() }
 
 //go:norace
-func (c *StreamConn) SetReadBuffer(int) error { return nil }
+func (c *StreamConn) SetReadBuffer(int) error { return c.sockopt() }
 
 //go:norace
-func (c *StreamConn) SetWriteBuffer(int) error { return nil }
+func (c *StreamConn) SetWriteBuffer(int) error { return c.sockopt() }
 
 // Reset aborts the connection from c's side: the peer sees RST, octets in
 // flight are lost.
